@@ -132,6 +132,8 @@ MaxOf(S) == CHOOSE x \in S : \A y \in S : x >= y
 MinCap(ws) == IF ws = {} THEN sch.C
               ELSE LET xs == { Win(v).x : v \in ws } IN CHOOSE x \in xs : \A y \in xs : x <= y
 CapWins(ws) == { v \in ws : Win(v).k = "cap" }
+RECURSIVE SumX(_)       \* extras of a set of windows, added up
+SumX(ws) == IF ws = {} THEN 0 ELSE LET v == CHOOSE v \in ws : TRUE IN Win(v).x + SumX(ws \ {v})
 
 Activate(mm, w) ==
     LET k == Win(w).k
@@ -141,7 +143,8 @@ Activate(mm, w) ==
          [] k = "part" ->
               IF Win(w).x = 1 THEN [m0 EXCEPT !.dset = @ \cup DirPairs(w)]
               ELSE [m0 EXCEPT !.pset = @ \cup SymPairs(w)]
-         [] k = "lat" -> [m0 EXCEPT !.lat[Link(w)] = Win(w).x]
+         [] k = "lat" -> [m0 EXCEPT !.lat[Link(w)] = IF Has("lat_restore_captured_original") THEN Win(w).x
+                                                     ELSE SumX(OpenLike(mm, w) \cup {w})]
          [] k = "loss" -> [m0 EXCEPT !.loss[Link(w)] = TRUE]
          [] k = "cap" ->
               LET nc == IF Has("capacity_restore_captured_original") THEN Win(w).x
@@ -174,8 +177,7 @@ Deactivate(mm, w) ==
                    IN [m0 EXCEPT !.pset = IF Has("heal_removes_shared_pairs") THEN @ \ SymPairs(w)
                                            ELSE (@ \ SymPairs(w)) \cup (keep \cap @)]
          [] k = "lat" ->
-              [m0 EXCEPT !.lat[Link(w)] = IF Has("lat_restore_captured_original") \/ others = {} THEN 0
-                                          ELSE Win(MaxOf(others)).x]
+              [m0 EXCEPT !.lat[Link(w)] = IF Has("lat_restore_captured_original") THEN 0 ELSE SumX(others)]
          [] k = "loss" ->
               [m0 EXCEPT !.loss[Link(w)] = ~(Has("loss_restore_captured_original") \/ others = {})]
          [] k = "cap" ->
